@@ -11,8 +11,10 @@ import (
 )
 
 type params struct {
-	Kind string   `json:"kind"` // boundaries | partial | errpath
-	Sc   scenario `json:"scenario"`
+	Kind   string   `json:"kind"`             // boundaries | partial | errpath | stress
+	Idx    int      `json:"idx,omitempty"`    // stress: case index
+	Rounds int      `json:"rounds,omitempty"` // stress: kills
+	Sc     scenario `json:"scenario"`
 	// partial: which prefix lengths. Set "quick": the fixed boundary set + 3 PRNG values;
 	// otherwise every k in [KLo,KHi) with k % Stride == 0 or k within the dense head/tail zones.
 	Set    string `json:"set,omitempty"`
@@ -64,6 +66,14 @@ func plan(seed int64, tier string) []vrt.Case {
 		// a second bystander population for the quick boundary set of partial writes
 		sc := scenario{Op: op, Pre: 0, Size: "small", Seed: seed}
 		add("par-"+sc.String(), params{Kind: "partial", Sc: sc, Set: "quick"})
+	}
+	// concurrent writers of one process, killed at PRNG instants
+	nStress, rounds := 4, 12
+	if tier == "thorough" {
+		nStress, rounds = 16, 40
+	}
+	for i := 0; i < nStress; i++ {
+		add(fmt.Sprintf("stress-%d", i), params{Kind: "stress", Idx: i, Rounds: rounds, Sc: scenario{Seed: seed}})
 	}
 	// other ways the message the operation works on may be stored: behind a symbolic link, under a
 	// differently-cased extension
@@ -119,6 +129,10 @@ func run(c vrt.Case) vrt.Obs {
 	var o vrt.Obs
 	var p params
 	vrt.Params(c, &p)
+	if p.Kind == "stress" {
+		runStress(&o, p.Sc.Seed, p.Idx, p.Rounds)
+		return o
+	}
 	mboxkit.Janitor()
 	b, err := newBench(&o, p.Sc)
 	defer b.close()
